@@ -108,6 +108,7 @@ let parse_cmd (s : string) : pcmd * string =
   | ["RECV"; i; n] -> (CRecv (n_of_string i, n_of_string n), "RECV " ^ i ^ " " ^ n)
   | ["RECVX"; i; n; m] -> (CRecvX (n_of_string i, n_of_string n, n_of_string m), "RECVX " ^ i ^ " " ^ n ^ " " ^ m)
   | ["APPLY"; i] -> (CApply (n_of_string i), "APPLY " ^ i)
+  | ["RECORD"; i] -> (CRecord (n_of_string i), "RECORD " ^ i)
   | ["SHRINK"; i] -> (CShrink (n_of_string i), "SHRINK " ^ i)
   | ["COMPACT"; i] -> (CCompact (n_of_string i), "COMPACT " ^ i)
   | ["RESTART"] -> (CRestart, "RESTART")
